@@ -988,7 +988,24 @@ def hline_cmd(strict, h):
     return '%s %s n=%d' % (obj.name.encode('ascii').hex(), obj.value.encode('ascii').hex(), n)
 
 
+# ---- SSH identification string ----
+def banner_enc(proto, sw, c):
+    from cryptoparser.ssh.subprotocol import SshProtocolMessage
+    from cryptoparser.ssh.version import SshProtocolVersion, SshSoftwareVersionUnparsed
+    major, minor = bytes.fromhex(proto).decode('ascii').split('.')
+    comment = None if c == '_' else bytes.fromhex('' if c == '-' else c).decode('ascii')
+    msg = SshProtocolMessage(SshProtocolVersion(int(major), int(minor)), SshSoftwareVersionUnparsed(bytes.fromhex(sw).decode('ascii')), comment)
+    return hx(msg.compose())
+
+
+def banner_dec(h):
+    from cryptoparser.ssh.subprotocol import SshProtocolMessage
+    msg, n = SshProtocolMessage.parse_immutable(bytes.fromhex('' if h == '-' else h))
+    return '%s n=%d' % (hx(msg.compose()), n)
+
+
 COMMANDS = {
+    'bannerenc': banner_enc, 'bannerdec': banner_dec,
     'nvl': nvl_cmd, 'fvm': fvm_cmd, 'hline': hline_cmd,
     'tpktenc': tpkt_enc, 'cotpenc': cotp_enc, 'pcotp': p_cotp, 'rdpnegenc': rdp_neg_enc, 'mysqlpktenc': mysql_pkt_enc,
     'mysqlssl41': mysql_ssl41, 'mysqlssl320': mysql_ssl320, 'ovpnctl': ovpn_ctl, 'ovpntcp': ovpn_tcp, 'pgssl': pg_ssl,
